@@ -548,6 +548,7 @@ func ReconstructMessageWithSharedDBAndS3(sharedDB *sql.DB, userDB *sql.DB, messa
 	// For multipart messages, we need to filter these out from stored headers
 	// because we'll generate new ones with boundaries that match the reconstructed body
 	hasStoredContentType := false
+	hasStoredEncoding := false
 	filteredHeaders := []map[string]string{}
 	for _, header := range headers {
 		headerName := strings.ToLower(strings.TrimSpace(header["name"]))
@@ -566,6 +567,7 @@ func ReconstructMessageWithSharedDBAndS3(sharedDB *sql.DB, userDB *sql.DB, messa
 				continue
 			}
 		} else if headerName == "content-transfer-encoding" {
+			hasStoredEncoding = true
 			// RFC 2045: multipart entities MUST NOT have a Content-Transfer-Encoding
 			if isMultipart {
 				fmt.Printf("DEBUG ReconstructMessage: Filtering out stored Content-Transfer-Encoding header for multipart\n")
@@ -635,7 +637,8 @@ func ReconstructMessageWithSharedDBAndS3(sharedDB *sql.DB, userDB *sql.DB, messa
 				buf.WriteString(fmt.Sprintf("Content-Type: %s\r\n", contentType))
 			}
 
-			if encoding, ok := part["content_transfer_encoding"].(string); ok && encoding != "" {
+			// The stored headers already carry the encoding the message came with
+			if encoding, ok := part["content_transfer_encoding"].(string); ok && encoding != "" && !hasStoredEncoding {
 				buf.WriteString(fmt.Sprintf("Content-Transfer-Encoding: %s\r\n", encoding))
 			}
 		}
